@@ -252,6 +252,9 @@ theorem reg_decisions :
     regSys.trace.filter (fun e => match e with | .D _ _ _ => true | _ => false) = [.D 0 2 7, .D 1 3 8, .D 3 3 8] := by
   decide +kernel
 
+theorem reg_members : Ev.D 0 2 7 ∈ regSys.trace ∧ Ev.D 1 3 8 ∈ regSys.trace ∧ Ev.D 3 3 8 ∈ regSys.trace := by
+  decide +kernel
+
 /-- with the CURRENT validators the Byzantine proposal is rejected by the identifier guard -/
 theorem reg_fixed_rejects :
     (runOld (Sys.init regP) (regSched.take 26)).map (fun σ => ((σ.ctrl 1).processMsg (regP.cfg 1) byzProposal).res) =
